@@ -2920,7 +2920,7 @@ DESCRIPTION
 int32
 HPgetdiskblock(filerec_t *file_rec, int32 block_size, int moveto)
 {
-    uint8 temp;
+    uint8 temp = 0; /* byte written to mark the end of the block; must not be left uninitialized */
     int32 ret_value = SUCCEED;
 
     /* check for valid arguments */
